@@ -149,7 +149,7 @@ def _replay(prop, name, params, bad, exception, seed):
     for o in bad:
         if o.get('model_inputs'):
             cands.append((o['label'], o['model_inputs']))
-    cands = cands[:3] + [(None, {})] * 3
+    cands = cands[:2] + [(None, {})] * 2
     confirmed = {}
     exc_confirmed = None
     for i, (lab, inputs) in enumerate(cands):
@@ -173,6 +173,8 @@ def _replay(prop, name, params, bad, exception, seed):
             os.remove(path)
         if len(confirmed) == len(want) and (not exception or exc_confirmed):
             break
+        if i >= 1 and (confirmed or exc_confirmed) and len(want) > 4:
+            break           # many failing obligations of one scenario: one confirmed replay is enough to raise the alarm
     out['confirmed'] = [{'label': b, 'replay': p} for b, p in confirmed.items()]
     if exc_confirmed:
         out['confirmed'].append({'label': 'exception ' + exception.split(':')[0], 'replay': exc_confirmed, 'exception': exception})
